@@ -345,7 +345,9 @@ def _protocol_pass(pid, tier, seed, verdict, mcs):
     frames every real session receives / submits are reported by the cfg-guarded hooks rx / tx.  Verdicts
     tagged with this property count; the others are printed as MODEL-DRIFT (they belong to another listed
     property's check or to behaviour outside the list)."""
-    mcs.append(mc_must_hold(pid, verdict, "MC_Protocol.tla", "MC_Protocol.cfg" if tier == "thorough" else "MC_Protocol_small.cfg", workers=8))
+    # thorough: 2 streams x 1 data frame per direction (2.2 M states); for C11 alone 2 data frames (46.7 M states, ~6 min)
+    pcfg = "MC_Protocol_small.cfg" if tier != "thorough" else ("MC_Protocol_big.cfg" if pid == "C11" else "MC_Protocol.cfg")
+    mcs.append(mc_must_hold(pid, verdict, "MC_Protocol.tla", pcfg, workers=12 if pcfg.endswith("big.cfg") else 8, timeout_s=2400))
     for d in ("SynOvertaken", "PshAfterFin", "HbEchoTwice", "SynackTwice", "DataBeforeSynack"):
         if (tier == "thorough" and pid != "C01") or d in PROTO_DEVS.get(pid, ()):
             mcs.append(mc_must_fail(pid, "MC_Protocol.tla", f"MC_Protocol_dev_{d}.cfg", workers=4))
